@@ -14,7 +14,8 @@ REPO = os.environ.get("VERIF_REPO", "/repo")
 INCLUDE = os.path.join(REPO, "include")
 BUILD = os.path.join(VERIF, "build")
 OUT = os.path.join(VERIF, "out")
-EVIDENCE = os.path.join(VERIF, "evidence")
+# evidence is only written for the real repository; runs against a scratch tree (VERIF_REPO) keep theirs apart
+EVIDENCE = os.path.join(VERIF, "evidence") if REPO == "/repo" else os.path.join(OUT, "scratch-evidence")
 NCPU = max(1, min(16, os.cpu_count() or 1))
 
 GXX = "g++"
